@@ -183,7 +183,9 @@ def run_case(case):
     hist = "queries in order %s, evidence %s" % ([qs[k] for k in case["order"]], evidence)
     hits = _hits["n"]
     if R is not None:
-        v = judge.judge(o, R, F)
+        if case["use_ground_all"] and case["propagate"]:
+            cls = judge.input_class(F, propagate=True)
+        v = judge.judge(o, R, F, propagate=bool(case["use_ground_all"] and case["propagate"]))
         if v is not None:
             return viol("history:" + v[0], v[1] + "\n" + text + hist, feat=feats, sample=text + hist)
     # compare with fresh single-query groundings
